@@ -272,6 +272,12 @@ def expected(a, b):
 # ---------------------------------------------------------------------------------------------
 # classification of the cache contents (class -> descriptor) — reads only cache *keys*
 # ---------------------------------------------------------------------------------------------
+def _has_ascending(d):
+    if d[0] == "Q":
+        d = d[3]
+    return d is not None and d[0] in FAM and len(d) == 3 and d[1] == "A"
+
+
 class Malformed(Exception):
     pass
 
@@ -358,7 +364,8 @@ def alphabet(widths, arr_elems, arr_counts, upto_widths, route_widths=(), qkinds
         for v in wrapped:
             ex.append(("sub", ("Q", q, direction, v)))
         for n in slice_widths:
-            ex.append(("slice", ("Q", q, direction, ("U", "D", n))))
+            for f in ("BV", "U", "S"):
+                ex.append(("slice", ("Q", q, direction, (f, "D", n))))
         for n in route_widths:
             for f in ("BV", "U", "S"):
                 d = ("Q", q, direction, (f, "D", n))
@@ -613,6 +620,10 @@ class Explorer:
                 for c0, d0 in parent.classmap.items():
                     if must >> U.index[d0] & 1 and not up[c0] & bit_d:
                         self.fact(f"{dtext(d0)} (created earlier) is not a subclass of {dtext(d)} (created later)", order)
+        # pairs the oracle leaves open (ascending ranges): the primitive and the qualified lattice must at least
+        # tell the same story - issubclass(Q[a], Q'[b]) == issubclass(a, b) wherever Q[..] <= Q'[..] is possible
+        if any(_has_ascending(d) for c, d in newcls):
+            self._agreement(classmap, order)
         npresent = len(classmap)
         self.counts["pairs_checked"] += 2 * len(newcls) * npresent - len(newcls) * len(newcls)
         if npresent > self.max_present:
@@ -632,6 +643,23 @@ class Explorer:
                         if (up[x] >> U.index[dy] & 1) != act:
                             raise RuntimeError(f"tool: mro fast path disagrees with issubclass for {dtext(dx)} / {dtext(dy)}")
         return Frame(caches, classmap, up, present, mro)
+
+    def _agreement(self, classmap, order):
+        prim = {d: c for c, d in classmap.items() if d[0] in FAM}
+        qual = [(c, d) for c, d in classmap.items() if d[0] == "Q" and d[3] is not None and d[3][0] in FAM]
+        for cx, dx in qual:
+            for cy, dy in qual:
+                if cx is cy or not q_le(dx[1], dx[2], dy[1], dy[2]) or expected(dx, dy) is not None:
+                    continue
+                px, py = prim.get(dx[3]), prim.get(dy[3])
+                if px is None or py is None:
+                    continue
+                self.counts["agreement_pairs"] = self.counts.get("agreement_pairs", 0) + 1
+                qrel, prel = issubclass(cx, cy), issubclass(px, py)
+                if qrel != prel:
+                    self.fact(f"{dtext(dx)} {'is' if qrel else 'is not'} a subclass of {dtext(dy)} but {vtext(dx[3])} "
+                              f"{'is' if prel else 'is not'} a subclass of {vtext(dy[3])} (qualified and primitive lattice disagree)",
+                              order)
 
     def step(self, parent: Frame, order, expr):
         """evaluate expr on the current caches (must equal parent.caches), check, return child frame or None"""
